@@ -61,20 +61,52 @@ Proof.
 Qed.
 
 (* ---- the trimmed input is a slice of the text ---- *)
-Lemma trim_start_suffix x : suffix (trim_start x) x.
+Lemma ws_prefix_suffix x r : ws_prefix x = Some r -> suffix r x.
 Proof.
-  induction x as [|b r IH]; cbn; [apply suffix_refl|].
-  destruct (is_ws_ascii b); [|apply suffix_refl]. eapply suffix_trans; [exact IH|apply suffix_cons].
+  unfold ws_prefix. destruct x as [|b [|c [|d r3]]]; try discriminate.
+  - destruct (is_ws_ascii b); [|discriminate]. intros H. injection H as <-. apply suffix_cons.
+  - destruct (is_ws_ascii b); [intros H; injection H as <-; apply suffix_cons|].
+    destruct ((b =? 194)%N && _); [|discriminate]. intros H. injection H as <-. now exists [b; c].
+  - destruct (is_ws_ascii b); [intros H; injection H as <-; apply suffix_cons|].
+    destruct ((b =? 194)%N && _); [intros H; injection H as <-; now exists [b; c]|].
+    repeat match goal with |- (if ?c then _ else _) = _ -> _ => destruct c end;
+      intros H; try discriminate H; injection H as <-; now exists [b; c; d].
 Qed.
+
+Lemma ws_suffix_rev_suffix x r : ws_suffix_rev x = Some r -> suffix r x.
+Proof.
+  unfold ws_suffix_rev. destruct x as [|b [|c [|d r3]]]; try discriminate.
+  - destruct (is_ws_ascii b); [|discriminate]. intros H. injection H as <-. apply suffix_cons.
+  - destruct (is_ws_ascii b); [intros H; injection H as <-; apply suffix_cons|].
+    destruct ((c =? 194)%N && _); [|discriminate]. intros H. injection H as <-. now exists [b; c].
+  - destruct (is_ws_ascii b); [intros H; injection H as <-; apply suffix_cons|].
+    destruct ((c =? 194)%N && _); [intros H; injection H as <-; now exists [b; c]|].
+    repeat match goal with |- (if ?c then _ else _) = _ -> _ => destruct c end;
+      intros H; try discriminate H; injection H as <-; now exists [b; c; d].
+Qed.
+
+Lemma drop_while_some_suffix step :
+  (forall x r, step x = Some r -> suffix r x) ->
+  forall fuel x, suffix (drop_while_some step fuel x) x.
+Proof.
+  intros Hs. induction fuel as [|f IH]; intros x; cbn [drop_while_some]; [apply suffix_refl|].
+  destruct (step x) as [r|] eqn:E; [|apply suffix_refl].
+  eapply suffix_trans; [apply IH|apply Hs; exact E].
+Qed.
+
+Lemma trim_start_suffix x : suffix (trim_start x) x.
+Proof. unfold trim_start. apply drop_while_some_suffix. exact ws_prefix_suffix. Qed.
 
 Lemma trim_infix text : exists a b, text = a ++ trim text ++ b.
 Proof.
   unfold trim. destruct (trim_start_suffix text) as [a Ha].
-  destruct (trim_start_suffix (rev (trim_start text))) as [b Hb].
+  destruct (drop_while_some_suffix ws_suffix_rev ws_suffix_rev_suffix
+              (List.length (trim_start text)) (rev (trim_start text))) as [b Hb].
   exists a, (rev b).
-  assert (E : trim_start text = rev (trim_start (rev (trim_start text))) ++ rev b).
+  assert (E : trim_start text =
+              rev (drop_while_some ws_suffix_rev (List.length (trim_start text)) (rev (trim_start text))) ++ rev b).
   { rewrite <- rev_app_distr, <- Hb. now rewrite rev_involutive. }
-  rewrite <- E. exact Ha.
+  cbv zeta. rewrite <- E. exact Ha.
 Qed.
 
 (* ---- ParseError::new: the reported line is a line of the input and the
@@ -228,8 +260,10 @@ Lemma span_offsets_inside orig at_ n :
 Proof.
   intros Hs Hn. unfold span_abs_start. apply suffix_length in Hs.
   assert (H1 : (length (trim orig) <= length (trim_start orig))%nat).
-  { unfold trim. rewrite rev_length.
-    pose proof (suffix_length _ _ (trim_start_suffix (rev (trim_start orig)))) as H. now rewrite rev_length in H. }
+  { unfold trim. cbv zeta. rewrite rev_length.
+    pose proof (suffix_length _ _ (drop_while_some_suffix ws_suffix_rev ws_suffix_rev_suffix
+                                     (List.length (trim_start orig)) (rev (trim_start orig)))) as H.
+    now rewrite rev_length in H. }
   pose proof (suffix_length _ _ (trim_start_suffix orig)) as H2.
   destruct (trim orig); cbn [length] in *; lia.
 Qed.
